@@ -39,7 +39,8 @@ in any two states that agree on `sc` and its ancestors; `computed_body_noninterf
 evaluated a fragment body in its sink scope, every such expression invocation B evaluates in its own scopes gives
 exactly the result it gave before (write half + read half, about `eval`, no hypothesis on reads or writes).
 What is NOT here (stated, not proved): `StmtOK` for `if` (needs allocation: `block_scope_keeps_outside` is only
-the single step and `Frame` is size-preserving), for x.* calls, strings, comparisons; the read half for whole
+the single step and `Frame` is size-preserving), for x.* calls, interpolating strings, comparisons (round 7 added
+the constants `true`/`false`/`null` and raw string literals: `read_body_frame`); the read half for whole
 BODIES (B's statements interleaved with A's; allocation renames indices), hence isolation via `isolation_mod`.
 -/
 namespace Ecal.Props.C11Frame
@@ -1258,4 +1259,121 @@ example : Up demo2 2 2 ∧ ¬ Up demo2 1 2 ∧ ¬ Up demo2 2 1 ∧
   ⟨Up.refl 2, demo2_not_up 1 2 (Or.inl ⟨rfl, rfl⟩), demo2_not_up 2 1 (Or.inr ⟨rfl, rfl⟩),
    ArithExpr.arith _ (idNode 101) numNode rfl (Or.inl rfl)
      (ArithExpr.ident _ _ [101] rfl rfl rfl (by decide)) (ArithExpr.number _ rfl)⟩
+
+/-! ### constants and raw strings on the right side (round 7) -/
+
+/-- the constant nodes `true`, `false`, `null` -/
+def IsConst (n : Ecal.Parse.Node) : Prop := n.name = "true" ∨ n.name = "false" ∨ n.name = "null"
+
+/-- a string literal without escape processing (`r"…"`): no interpolation, its text is its value -/
+def IsRawString (n : Ecal.Parse.Node) : Prop := n.name = "string" ∧ ∃ t, n.tok = some t ∧ t.allowEscapes = false
+
+/-- constants and raw strings evaluate to a value that does not depend on the state, and leave the state -/
+theorem literal_run (sc : Nat) (n : Ecal.Parse.Node) (h : IsConst n ∨ IsRawString n) :
+    ∃ v, ∀ f s, runM (eval (f + 1) sc n) s = (.ok v, s) := by
+  rcases h with (h | h | h) | ⟨h, t, ht, he⟩
+  · exact ⟨.bool true, fun f s => by unfold eval; simp only [h]; rfl⟩
+  · exact ⟨.bool false, fun f s => by unfold eval; simp only [h]; rfl⟩
+  · exact ⟨.null, fun f s => by unfold eval; simp only [h]; rfl⟩
+  · refine ⟨.str t.val, fun f s => ?_⟩
+    unfold eval
+    simp only [h]
+    rw [runM_bind, Ecal.Ev.runM_tokOf, ht]
+    simp only [he, Bool.false_eq_true, if_false]
+    rfl
+
+/-- right sides of the wider fragment: arithmetic over variables and number literals, the constants `true`,
+    `false`, `null`, raw string literals -/
+def ReadExpr (n : Ecal.Parse.Node) : Prop := ArithExpr n ∨ IsConst n ∨ IsRawString n
+
+/-- every `ReadExpr`, evaluated in any scope with any fuel and any outcome (value or error), leaves the state
+    exactly as it was. No hypotheses besides the shape of the node (examples of the shape: below). -/
+theorem readExpr_reads (sc : Nat) (e : Ecal.Parse.Node) (h : ReadExpr e) : Reads sc e := by
+  rcases h with h | h
+  · exact arithExpr_reads sc e h
+  · intro f s r s' hr
+    cases f with
+    | zero => exact eval_zero_state sc e s s' r hr
+    | succ f =>
+      obtain ⟨v, hv⟩ := literal_run sc e h
+      rw [hv f s] at hr
+      injection hr with _ h2
+      exact h2.symm
+
+/-- the read half for `ReadExpr`: its result (value or error) depends only on the scopes from `sc` upwards —
+    two states that agree on that chain (`AgreeOn`, inhabited: `frame_agree_other`) give the same result. -/
+theorem readExpr_value_local (sc : Nat) (e : Ecal.Parse.Node) (h : ReadExpr e) : Local sc e := by
+  rcases h with h | h
+  · exact arithExpr_value_local sc e h
+  · intro f st st' _
+    cases f with
+    | zero => unfold eval; rfl
+    | succ f =>
+      obtain ⟨v, hv⟩ := literal_run sc e h
+      rw [hv f st', hv f st]
+
+/-- the statement node `v := e`: plain identifier `v` (one of `names`), `e` a `ReadExpr` -/
+def IsAssignRead (names : List String) (c : Ecal.Parse.Node) : Prop :=
+  ∃ (lhs rhs : Ecal.Parse.Node) (tl : Ecal.Lex.Tok) (vl : List Nat),
+    c.name = ":=" ∧ c.children[0]? = some (some lhs) ∧ c.children[1]? = some (some rhs) ∧
+    lhs.name = "identifier" ∧ lhs.children.isEmpty = true ∧ lhs.tok = some tl ∧ splitDots tl.val = [vl] ∧
+    ReadExpr rhs ∧ bytesToString vl ∈ names
+
+/-- a `v := e` statement of the wider fragment satisfies `StmtOK` (hypothesis `IsAssignRead`: two examples
+    at the end of this section; `Ctx` inside `StmtOK` is inhabited by `demo2_ctx`). -/
+theorem stmtOK_assignRead (snk f sc : Nat) (names : List String) (c : Ecal.Parse.Node) (h : IsAssignRead names c) :
+    StmtOK snk (f + 4) sc names c := by
+  obtain ⟨lhs, rhs, tl, vl, h1, h2, h3, h4, h5, h6, h7, h8, h9⟩ := h
+  intro s s' x hctx hr
+  exact eval_assign_expr_statement_frame snk f sc c lhs rhs tl vl s s' x h1 h2 h3 h4 h5 h6 h7
+    (readExpr_reads sc rhs h8) hctx.below (hctx.fresh _ h9) hr
+
+/-- **read_body_frame** — `computed_body_frame` for the wider fragment: the right sides of the assignments may
+    also be the constants `true` / `false` / `null` and raw string literals. A sink body of `let v` and
+    `v := e` statements (`e` a `ReadExpr`, `v` a plain identifier among `names`, none defined in the declaring
+    chain), evaluated successfully by `Ecal.Ev.eval` in the sink scope (or below) of a well-formed scope table,
+    leaves every scope outside the sink's sub-tree unchanged. No hypothesis about what evaluation writes.
+    Non-vacuity: `Ctx` by `demo2_ctx`, the statement shape by the two examples below, a successful run of the
+    new right sides by `literal_run` (kernel-checked); a successful run of a whole body only by `#eval`, as for
+    `fragment_body_frame`. -/
+theorem read_body_frame (snk f sc : Nat) (names : List String) (n : Ecal.Parse.Node)
+    (hname : n.name = "statements")
+    (hall : ∀ c ∈ n.children, ∃ c', c = some c' ∧ (IsLet c' ∨ IsAssignRead names c'))
+    (st st' : St) (x : Val) (hctx : Ctx snk sc names st)
+    (h : runM (eval (f + 5) sc n) st = (.ok x, st')) : Frame snk st st' := by
+  refine eval_statements_frame snk (f + 4) sc names n hname ?_ st st' x hctx h
+  intro c hc
+  obtain ⟨c', e, hk⟩ := hall c hc
+  refine ⟨c', e, ?_⟩
+  rcases hk with hk | hk
+  · exact stmtOK_let snk (f + 1) sc names c' hk
+  · exact stmtOK_assignRead snk f sc names c' hk
+
+/-- **read_body_noninterference** — `computed_body_noninterference` for the wider fragment on both sides: after
+    invocation A evaluated such a body in its sink scope, every `ReadExpr` that invocation B (sink scope neither
+    above nor below A's) evaluates in its own scopes gives exactly the result it gave before, for every fuel. -/
+theorem read_body_noninterference (snkA snkB scB f g : Nat) (names : List String)
+    (n e : Ecal.Parse.Node) (hname : n.name = "statements")
+    (hall : ∀ c ∈ n.children, ∃ c', c = some c' ∧ (IsLet c' ∨ IsAssignRead names c'))
+    (st st' : St) (x : Val) (hctx : Ctx snkA snkA names st)
+    (h : runM (eval (f + 5) snkA n) st = (.ok x, st'))
+    (hB : Up st scB snkB) (hAB : ¬ Up st snkA snkB) (hBA : ¬ Up st snkB snkA) (he : ReadExpr e) :
+    (runM (eval g scB e) st').1 = (runM (eval g scB e) st).1 :=
+  readExpr_value_local scB e he g st st'
+    (frame_agree_other snkA snkB scB st st'
+      (read_body_frame snkA f snkA names n hname hall st st' x hctx h) hB hAB hBA)
+
+/-- non-vacuity of the syntactic side: `y := null` and `y := r"a"` -/
+example : IsAssignRead ["y"] (.mk ":=" none 0 .none .none
+    [some (idNode 121), some (.mk "null" none 0 .none .none [] [])] []) :=
+  ⟨idNode 121, _, _, [121], rfl, rfl, rfl, rfl, rfl, rfl, by decide, Or.inr (Or.inl (Or.inr (Or.inr rfl))), by decide⟩
+
+example : IsAssignRead ["y"] (.mk ":=" none 0 .none .none
+    [some (idNode 121), some (.mk "string" (some ⟨5, 0, [97], false, false, 0, 1, 1⟩) 0 .none .none [] [])] []) :=
+  ⟨idNode 121, _, _, [121], rfl, rfl, rfl, rfl, rfl, rfl, by decide,
+    Or.inr (Or.inr ⟨rfl, _, rfl, rfl⟩), by decide⟩
+
+/-- `literal_run` is not vacuous: `null` evaluates, in every state and with every positive fuel -/
+example : ∃ v, ∀ f s, runM (eval (f + 1) 0 (.mk "null" none 0 .none .none [] [])) s = (.ok v, s) :=
+  literal_run 0 _ (Or.inl (Or.inr (Or.inr rfl)))
 end Ecal.Props.C11Frame
